@@ -170,6 +170,10 @@ func unmarshalList(dec *msgpack.Decoder, ety cty.Type, path cty.Path) (cty.Value
 		vals = append(vals, val)
 	}
 
+	if !cty.CanListVal(vals) {
+		// Possible only when the element type is not fully specified.
+		return cty.DynamicVal, path[:len(path)-1].NewErrorf("all list elements must have the same type")
+	}
 	return cty.ListVal(vals), nil
 }
 
@@ -201,6 +205,10 @@ func unmarshalSet(dec *msgpack.Decoder, ety cty.Type, path cty.Path) (cty.Value,
 		vals = append(vals, val)
 	}
 
+	if !cty.CanSetVal(vals) {
+		// Possible only when the element type is not fully specified.
+		return cty.DynamicVal, path[:len(path)-1].NewErrorf("all set elements must have the same type")
+	}
 	return cty.SetVal(vals), nil
 }
 
@@ -237,6 +245,10 @@ func unmarshalMap(dec *msgpack.Decoder, ety cty.Type, path cty.Path) (cty.Value,
 		vals[key] = val
 	}
 
+	if !cty.CanMapVal(vals) {
+		// Possible only when the element type is not fully specified.
+		return cty.DynamicVal, path[:len(path)-1].NewErrorf("all map elements must have the same type")
+	}
 	return cty.MapVal(vals), nil
 }
 
